@@ -9,6 +9,7 @@ import (
 	"time"
 
 	"github.com/0xPolygon/cdk-contracts-tooling/contracts/pp/l2-sovereign-chain/polygonrollupmanager"
+	"github.com/agglayer/aggkit/agglayer"
 	agglayertypes "github.com/agglayer/aggkit/agglayer/types"
 	"github.com/agglayer/aggkit/aggsender"
 	"github.com/agglayer/aggkit/aggsender/config"
@@ -118,8 +119,9 @@ func (m *mAgglayer) lastAtHeight(h uint64) *mCert {
 	return out
 }
 
-func certID(c *agglayertypes.Certificate) common.Hash {
-	return crypto.Keccak256Hash(c.Hash().Bytes(), c.Metadata.Bytes())
+// certID: certificate ids are opaque to the node; the model makes them unique per submission.
+func certID(c *agglayertypes.Certificate, seq int) common.Hash {
+	return crypto.Keccak256Hash(c.Hash().Bytes(), c.Metadata.Bytes(), []byte{byte(seq >> 8), byte(seq)})
 }
 
 // SendCertificate implements agglayer.AgglayerClientInterface.
@@ -133,7 +135,7 @@ func (m *mAgglayer) SendCertificate(_ context.Context, cert *agglayertypes.Certi
 	if m.fail("SendCertificate") {
 		return common.Hash{}, errors.New("agglayer: injected failure (certificate not received)")
 	}
-	mc := &mCert{ID: certID(cert), Cert: cert, Status: agglayertypes.Pending, WithPrev: m.headerPrev, Seq: len(m.certs)}
+	mc := &mCert{ID: certID(cert, len(m.certs)), Cert: cert, Status: agglayertypes.Pending, WithPrev: m.headerPrev, Seq: len(m.certs)}
 	m.checkSubmission(mc)
 	m.certs = append(m.certs, mc)
 	m.byID[mc.ID] = mc
@@ -579,17 +581,7 @@ type asNode struct {
 	dbPath string
 }
 
-func agglayerIface(m *mAgglayer) interface {
-	SendCertificate(context.Context, *agglayertypes.Certificate) (common.Hash, error)
-	GetCertificateHeader(context.Context, common.Hash) (*agglayertypes.CertificateHeader, error)
-	GetEpochConfiguration(context.Context) (*agglayertypes.ClockConfiguration, error)
-	GetLatestSettledCertificateHeader(context.Context, uint32) (*agglayertypes.CertificateHeader, error)
-	GetLatestPendingCertificateHeader(context.Context, uint32) (*agglayertypes.CertificateHeader, error)
-} {
-	return m
-}
-
-func newASNode(w *jWorld, m *mAgglayer, dbPath string, nc nodeCfg) (*asNode, error) {
+func newASNode(w *jWorld, m agglayer.AgglayerClientInterface, dbPath string, nc nodeCfg) (*asNode, error) {
 	cfg := config.Config{
 		StoragePath:                     dbPath,
 		AggsenderPrivateKey:             signer.NewMockSignerConfig(verifPrivKey),
